@@ -25,12 +25,15 @@ macro_rules! object_path_unit {
     };
 }
 // @unit C10.object_path.n6 props=C10,C03 kind=bounded bound=N<=6 fn=zvariant::object_path::validate timeout=600
+#[cfg(not(verif_skip_c10_object_path__n6))]
 object_path_unit!(c10_object_path__n6, 6, 9, "C10.object_path.n6.accepts_iff_spec");
 // @unit C10.object_path.n10 props=C10,C03 kind=bounded bound=N<=10 tier=thorough fn=zvariant::object_path::validate timeout=1800
+#[cfg(not(verif_skip_c10_object_path__n10))]
 object_path_unit!(c10_object_path__n10, 10, 13, "C10.object_path.n10.accepts_iff_spec");
 
 // "however constructed": TryFrom<&str> and from_static_str accept exactly the grammar (ASCII, N <= 5)
 // @unit C10.try_from.object_path props=C10 kind=bounded bound=ASCII,N<=5 fn=<zvariant::ObjectPath.as.TryFrom<&str>>::try_from,zvariant::ObjectPath::from_static_str timeout=600
+#[cfg(not(verif_skip_c10_try_from_object_path__n5))]
 #[cfg(kani)]
 #[kani::proof]
 #[kani::unwind(8)]
